@@ -114,6 +114,10 @@ type Interp struct {
 	AllocEventIsPanic bool
 	MapOrderReverse   bool
 	TierN       int
+	concreteGen    func(name string, w int) uint64
+	concreteAssign map[string]string
+	concFailures   []string
+	concReached    []string
 	Opaque  map[int]interface{} // handles for opaque host objects
 	UnwindFailIsViolation bool
 }
@@ -326,6 +330,9 @@ func (in *Interp) assume(c *Term) {
 func (in *Interp) decide(cond *Term) bool {
 	if cond.Op == OpConst {
 		return cond.Lo == 1
+	}
+	if in.concreteGen != nil {
+		panic(&pathEnd{Kind: "unsupported", Msg: "symbolic branch in concrete mode"})
 	}
 	in.symSeq++
 	var d int
